@@ -502,6 +502,12 @@ func (x *Exec) call(fr *Frame, st *State, reach string, cc *ssa.CallCommon, ins 
 	}
 	x.assumed[key+" (no contract: havoc of inferred effects)"] = true
 	x.havocEffects(st, x.eng.eff.funcEffects(callee))
+	// function values passed to an uncontracted callee may be called by it
+	for _, a := range args {
+		if fv, ok := a.(Sc); ok && fv.Fn != nil {
+			x.havocEffects(st, x.eng.eff.funcEffects(fv.Fn))
+		}
+	}
 	v := x.havocVal(rt, "call."+callee.Name())
 	return v
 }
@@ -578,6 +584,9 @@ func (x *Exec) applyContract(fr *Frame, st *State, reach string, con *Contract, 
 	}
 	pre := st.clone()
 	pnames := paramNamesOf(callee, sig)
+	if callee == nil && recvT == nil && len(con.ParamNames) > 0 {
+		pnames = con.ParamNames
+	}
 	if callee == nil && recvT != nil {
 		// interface method: receiver named "self"
 		pnames = []string{"self"}
